@@ -202,6 +202,7 @@ Plan cppwrap_generate(uint64_t base, const std::string &prop, uint64_t index, in
     k.max_arr_depth = 1 + (int)rd.below(6);
     k.p_container = 20 + (int)rd.below(40);
     p.root = 0;
+    { Rng rl = rd.fork("layout"); if (rl.chance(1, 3)) pick_name_family(rl, k); }
     Node t = gen_tree(rd, k, false);
     if (rd.chance(1, tier ? 40 : 150)) {
         // many fields in one object: counts (and quantities derived from them) beyond narrow counters
